@@ -141,6 +141,9 @@ pub fn run_c15(cfg: &RunCfg, trace: bool) -> RunOut {
                 Op::HRead(s, 0) => {
                     zero_read.insert(*s);
                 }
+                // read_exact into an empty buffer issues no read call at all: the handle is as the
+                // zero-length read left it
+                Op::HRead(_, n) if read_exact_len(*n) == Some(0) => {}
                 Op::HRead(s, _) | Op::HSeek(s, ..) | Op::HDrop(s) | Op::OpenRead(_, s) => {
                     zero_read.remove(s);
                 }
